@@ -430,6 +430,14 @@ class Pointwise(Interp):
 
     def external_call(self, name, args, kwargs, node):
         n = name
+        if n in ("numpy.logical_and", "numpy.logical_or", "numpy.bitwise_and", "numpy.bitwise_or") and len(args) == 2 and not kwargs and all(isinstance(a, (Mask, Unknown)) for a in args):
+            a, b = self._mask_value(args[0], node), self._mask_value(args[1], node)
+            if a is not None and b is not None:
+                return Mask((a and b) if n.endswith("and") else (a or b), norm(node) if isinstance(node, ast.AST) else "")
+        if n == "numpy.logical_not" and len(args) == 1 and not kwargs and isinstance(args[0], (Mask, Unknown)):
+            a = self._mask_value(args[0], node)
+            if a is not None:
+                return Mask(not a, norm(node) if isinstance(node, ast.AST) else "")
         if n in ("numpy.unique",):
             if args and isinstance(args[0], EmptyArr) and not kwargs:
                 return args[0]
